@@ -28,6 +28,9 @@ class Contract:
     properties: list = field(default_factory=list)      # property ids this contract serves
     witness: dict = field(default_factory=dict)          # ensures clause -> {existential var: witness expr over locals} (proof hint only)
     raises_ensures: list = field(default_factory=list)  # clauses over `exc` that hold whenever the function raises
+    strict_progress: bool = False                       # rule-like method: success => index strictly increases (has an ensures saying so)
+    product: dict = field(default_factory=dict)          # relational (2-run) obligation: {"on": "self._verbose", "observe": [...]}
+    rulefn_preserves: list = field(default_factory=list)  # ASSUMED of every uninterpreted rule-like call made by this function
     floor: int = 1                                      # vacuity guard: minimum number of obligations expected
 
 
